@@ -1280,6 +1280,22 @@ func (w *Writer) getExprVectorSize(handle ir.ExpressionHandle) (int, bool) {
 	return 0, false
 }
 
+// imageTypeOfExpr returns the image type an expression resolves to, or nil.
+func (w *Writer) imageTypeOfExpr(exprHandle ir.ExpressionHandle) *ir.ImageType {
+	if int(exprHandle) >= len(w.currentFunction.ExpressionTypes) {
+		return nil
+	}
+	res := &w.currentFunction.ExpressionTypes[exprHandle]
+	inner := res.Value
+	if res.Handle != nil && int(*res.Handle) < len(w.module.Types) {
+		inner = w.module.Types[*res.Handle].Inner
+	}
+	if imgType, ok := inner.(ir.ImageType); ok {
+		return &imgType
+	}
+	return nil
+}
+
 // resolveImageType resolves the image type from an expression handle.
 func (w *Writer) resolveImageType(exprHandle ir.ExpressionHandle) *ir.ImageType {
 	if w.currentFunction == nil {
@@ -1287,7 +1303,9 @@ func (w *Writer) resolveImageType(exprHandle ir.ExpressionHandle) *ir.ImageType 
 	}
 	gvHandle := w.resolveGlobalVarHandle(w.currentFunction, exprHandle)
 	if gvHandle == nil {
-		return nil
+		// Not a global (a texture passed as a function argument): the
+		// expression's own resolved type says what image it is.
+		return w.imageTypeOfExpr(exprHandle)
 	}
 	if int(*gvHandle) >= len(w.module.GlobalVariables) {
 		return nil
